@@ -83,3 +83,75 @@ Definition aq_run (q : aq) (ops : list aqop) : aq := fold_left aq_step ops q.
 (* header counters kept by the implementation: tail id = events flushed, read id = events ACKed *)
 Definition aq_tail_id (q : aq) : nat := length (q_flushed q).
 Definition aq_read_id (q : aq) : nat := q_acked q.
+
+(* ---------- the reader as a state machine over the payload stream (pq/reader.go Next / Read) ---------- *)
+(* r_pos: stream position of the cursor; r_left: unread bytes of the current event (None: between events,
+   eventBytes = -1 in the source); r_id: events left behind. N = number of events in the stream known to the
+   reader (endID - first id). *)
+Record rst := { r_pos : nat; r_left : option nat; r_id : nat }.
+Inductive rop := RNext | RRead (n : nat).
+
+(* output: Next reports a size (0 = no more events), Read returns bytes *)
+Definition rd_step (P : nat) (stream : list Z) (N : nat) (st : rst) (o : rop) : option nat * list Z * rst :=
+  match o with
+  | RNext =>
+      let p1 := (r_pos st + match r_left st with Some k => k | None => 0 end)%nat in   (* Skip the rest *)
+      let id1 := match r_left st with Some _ => S (r_id st) | None => r_id st end in
+      if (N <=? id1)%nat then (Some O, [], {| r_pos := p1; r_left := None; r_id := id1 |})
+      else
+        let p2 := (p1 + pad_at P p1)%nat in                                            (* header does not fit: next page *)
+        let L := Z.to_nat (le_decode (slice p2 hdr_len stream)) in
+        (Some L, [], {| r_pos := (p2 + hdr_len)%nat; r_left := Some L; r_id := id1 |})
+  | RRead n =>
+      match r_left st with
+      | None => (None, [], st)
+      | Some k =>
+          let m := Nat.min n k in
+          (None, slice (r_pos st) m stream,
+           {| r_pos := (r_pos st + m)%nat;
+              r_left := if (k <=? n)%nat then None else Some (k - m)%nat;
+              r_id := if (k <=? n)%nat then S (r_id st) else r_id st |})
+      end
+  end.
+
+Fixpoint rd_run (P : nat) (stream : list Z) (N : nat) (st : rst) (ops : list rop) : list (option nat * list Z) :=
+  match ops with
+  | [] => []
+  | o :: rest => let '(sz, bs, st') := rd_step P stream N st o in (sz, bs) :: rd_run P stream N st' rest
+  end.
+
+(* the same operations on the list of events itself: what a consumer is entitled to see *)
+Record sst := { s_rest : list (list Z); s_cur : option (list Z) }.
+Definition sp_step (s : sst) (o : rop) : option nat * list Z * sst :=
+  match o with
+  | RNext => match s_rest s with
+             | [] => (Some O, [], {| s_rest := []; s_cur := None |})
+             | e :: r => (Some (length e), [], {| s_rest := r; s_cur := Some e |})
+             end
+  | RRead n => match s_cur s with
+               | None => (None, [], s)
+               | Some b => (None, firstn n b,
+                            {| s_rest := s_rest s; s_cur := if (length b <=? n)%nat then None else Some (skipn n b) |})
+               end
+  end.
+Fixpoint sp_run (s : sst) (ops : list rop) : list (option nat * list Z) :=
+  match ops with
+  | [] => []
+  | o :: rest => let '(sz, bs, s') := sp_step s o in (sz, bs) :: sp_run s' rest
+  end.
+
+(* ---------- the page-level cursor (pq/cursor.go Skip / readInto): page index in the chain, offset in the
+   payload area (0..P); moving by n bytes ---------- *)
+Fixpoint cur_adv (fuel P : nat) (pg off n : nat) : nat * nat :=
+  match fuel with
+  | O => (pg, off)
+  | S f =>
+      match n with
+      | O => (pg, off)
+      | _ =>
+          let '(pg1, off1) := if (P - off =? 0)%nat then (S pg, O) else (pg, off) in   (* PageBytes() == 0: next page *)
+          let mx := Nat.min n (P - off1) in
+          cur_adv f P pg1 (off1 + mx)%nat (n - mx)%nat
+      end
+  end.
+Definition cur_lin (P pg off : nat) : nat := (pg * P + off)%nat.
